@@ -7,6 +7,7 @@ open Conv
    case:   sched <k> <p1> ... <pn>      (hex; polls of task indices, in order)
            lsched <k> <p1> ... <pn>     (same on the pre-fix model; model only)
            stress <k> <rounds>          (k spawned tasks on a multi-thread runtime, oracle only)
+           purge <mode> <pre> <ticks>   (background purge ticks between two uses, oracle only)
    result: polls <per task> sets <per task id set> final <id set> ts <0|1>
            all-present | violated <n>                                            *)
 let nat_of_hex s = nat_of_int (int_of_string ("0x" ^ s))
@@ -42,6 +43,11 @@ let run_keyspace (toks : string list) : string =
        && Model.o_ts o
     then "all-present"
     else "violated"
+  | [ "purge"; _; _; _ ] ->
+    (* The purge task only reads the group map (Keyspace.v has no transition that replaces an
+       entry: KsInv, entries are inserted by add_state only when absent), so whatever happens to
+       the purge itself the acknowledged mutations stay in the one registered instance. *)
+    "all-present"
   | _ -> "?bad-case"
 
 let () =
